@@ -5,60 +5,61 @@ import itertools
 import re
 
 from ..model import AnalysisError
-from ..symex import Symex, Obj, ClassRef, Func, Raised, _freeze
-from ..terms import T, sym, t_pow, show, args_of, is_num
+from fractions import Fraction
+
+from ..symex import Symex, Obj, ClassRef, Raised, _freeze
+from ..terms import T, sym, t_add, t_mul, t_pow, show, is_num
 from . import skeleton as sk
-from .skeleton import ExprState, EC
+from .skeleton import EC
 
 EXPLANATION = (
-    "Every clause is decided by evaluating the library source abstractly (sa.symex) on small abstract domains and "
-    "comparing the computed value with the behaviour written down in the rule; no clause looks at source text, local "
-    "names or statement layout (helpers a function calls are evaluated through). Indices are abstract records (space, "
-    "spin, name, dummy id), sympy's singletons 0/1/-1 are integers, Add/Mul/Pow are sum/product/power of terms. "
-    "R06a: the bra-ket comparison each tensor class resolves to (_need_bra_ket_swap through the class hierarchy) "
-    "evaluated on 1- and 2-index groups over 3 spaces x 3 spins x numbered names: never a swap in both directions, exactly "
-    "one direction for different (space, spin, number, letter) keys, none for equal keys, unequal group sizes refused. "
-    "R06b (end to end): the constructor each class (AntiSymmetricTensor, Amplitude, SymmetricTensor) resolves to is evaluated "
-    "together with the library's sort key and bra-ket comparison for every index tuple of rank (1,1) and (2,2) (thorough: "
-    "also (2,1) and (3,3)) over an index pool and bra-ket symmetry 0/+1/-1: all orderings related by the declared "
-    "permutational and bra-ket symmetry give the same canonical object with the prescribed relative sign, a repeated "
-    "index in an antisymmetric group gives zero and nothing else does, the canonical upper/lower groups are the given "
-    "groups (exchanged only under a bra-ket symmetry), so unrelated tuples are never identified. R06c: the constructors "
-    "in isolation with the sorting primitive and the comparison modelled (sort parities, swap needed, symmetry 0/+1/-1, "
-    "non-Index entries, Pauli violation, invalid symmetry): sign, exchange, zero; the groups are sorted with the canonical "
-    "key and the comparison is made on the sorted groups. R06d: KroneckerDelta.eval over all (space, spin)^2 inputs "
-    "(zero exactly for two different non-general spaces or two different spins, else canonical argument order, delta(i,i)=1) "
-    "and the _eval_power table. R06e: homomorphism of make_real, _apply_tensor_braket_sym, rename_tensor on all four "
-    "container levels by evaluation: Expr content = sum over all terms, Term = product over all objects, Polynom = "
-    "(sum over all terms) ** exponent with the arguments forwarded and raw values combined, wrappers carry the "
-    "assumptions; Obj level as value tables (t-amplitude names lose the complex-conjugate mark and nothing else changes, "
-    "rename rebuilds the same class with the same index groups and symmetry, rebuilt values keep the exponent). Calls of "
-    "the next lower level are recorded with all arguments bound to parameter names and with the assumptions of the "
-    "owning expression at the time of the call on which the raw value depends (verified by differential evaluation). "
-    "R06f: the Expr assumption state machine (__init__, make_real, set_sym_tensors, set_antisym_tensors) evaluated on "
-    "concrete assumption sets against a reference transition function (real adds fock and eri, the symmetry is applied "
-    "with the complete new declaration after it changed, an already real expression is left untouched, non-string names "
-    "refused), the decision table of Obj._apply_tensor_braket_sym (class x declared names x present symmetry) and of "
-    "AntiSymmetricTensor.add_bra_ket_sym (present x requested symmetry). Contents are compared modulo one law: applying "
-    "the declared symmetry for names S after applying it for a subset of S equals applying it for S.")
+    "Every clause is decided by evaluating the library source abstractly (sa.symex) and comparing the computed value with "
+    "the behaviour written down in the rule. The library is entered through its public surface only (the constructors of "
+    "the tensor classes and of Expr, KroneckerDelta.eval and sympy's _eval_power protocol, the public methods make_real / "
+    "set_sym_tensors / set_antisym_tensors / rename_tensor / add_bra_ket_sym, the public properties terms / objects / sympy / "
+    "real / sym_tensors / antisym_tensors / provided_target_idx); whatever private helper, nested function or classmethod "
+    "does the work is evaluated through, so no clause depends on where or under which name it lives. Indices are "
+    "abstract records (space, spin, name, dummy id), sympy's singletons 0/1/-1 are integers. "
+    "R06a: the bra-ket ordering as the constructors apply it: for 1- and 2-index groups over spaces x spins x numbered "
+    "names (incl. names that tie in (number, letter) such as i / i0 and two distinct index objects of one name) K(u,l,+1) "
+    "and K(l,u,+1) are never both exchanged and exactly one is whenever the groups differ (distinct indices never tie), "
+    "K(u,u,+1) is +(one object), unequal group sizes are refused. R06b (relational): for every index tuple of rank (1,1) and (2,2) (thorough: also (2,1), (3,3)) "
+    "over an index pool and bra-ket symmetry 0/+1/-1 all orderings related by the declared permutational and bra-ket "
+    "symmetry give the same canonical object with the prescribed relative sign, a repeated index in an antisymmetric group "
+    "and the diagonal of a bra-ket antisymmetric tensor (upper group a permutation of the lower group) give zero and nothing "
+    "else does, the canonical groups are the given groups (exchanged only under a bra-ket symmetry), "
+    "so unrelated tuples are never identified. R06c (formula): scenario inputs (both sort parities, both orientations, "
+    "symmetry 0/+1/-1, a non-Index entry, invalid symmetry, repeated index): groups sorted ascending by the library's "
+    "sort_idx_canonical, exchanged exactly when a symmetry is declared, all entries are indices and the sorted groups are "
+    "in the orientation the constructor exchanges for symmetry +1, sign = parity of the two sorts (antisymmetric groups) "
+    "times bra_ket_sym if exchanged. R06d: KroneckerDelta.eval over all (space, spin)^2 inputs (zero exactly for two "
+    "different non-general spaces or two different spins, else canonical argument order, delta(i,i)=1) and the power "
+    "table. R06e/R06f: the container classes are evaluated through all levels on concrete model expressions (sums of "
+    "products with prefactors, exponents, polynoms with and without exponent, every tensor class, deltas, bra-ket "
+    "partners that sympy collects once identified): tensors are built by the library's own constructors, Expr / Term / Obj / "
+    "Polynom objects by the library's __new__ / __init__, and the resulting content is compared leaf by leaf and in "
+    "structure with a reference written in the rule. R06f: Expr(...), make_real, set_sym_tensors, set_antisym_tensors "
+    "against a reference state machine (real adds fock and eri, exactly the declared names that lack the symmetry are "
+    "rebuilt with it - class, name, index groups kept -, the opposite symmetry is refused, non-string names are refused, "
+    "an expression that is real already is not processed again), the decision table class x declared name x present "
+    "symmetry x exponent on single-object contents, add_bra_ket_sym (present x requested symmetry). R06e: make_real on a "
+    "fresh expression and rename_tensor at the Expr level; terms / objects enumerate all summands / factors; make_real "
+    "and rename_tensor of every Term, Obj and Polynom give the reference image of what they hold (t-amplitudes lose the "
+    "complex-conjugate mark, renamed tensors keep class, indices, symmetry; sums stay sums, products products, exponents "
+    "are kept), raw or wrapped in an Expr that carries the assumptions (real=True after make_real).")
 ASSUMPTIONS = [
-    "sympy's _sort_anticommuting_fermions sorts by the given key, returns the number of transpositions and raises "
-    "ViolationOfPauliPrinciple on two entries with equal keys; sorted() is stable python sorting",
+    "sympy's _sort_anticommuting_fermions (imported from sympy, no source in the library) sorts by the given key, returns "
+    "the number of transpositions and raises ViolationOfPauliPrinciple on two entries with equal keys; sympy allocates "
+    "Basic objects by <Base>.__new__(cls, *args) with .args = args; Add collects equal summands, Mul/Pow fold numbers and "
+    "unit exponents; nothing else of sympy's automatic simplification is modelled",
     "orientation (< vs >) of the bra/ket ordering is deliberately not constrained",
-    "value preservation under the declared assumptions is not decided (only that exactly the declared names are "
-    "re-canonicalised with the complete declaration at every level)",
-    "index tuples are explored up to rank (2,2) over a pool of 5-6 abstract indices (thorough: pool of 8, (2,1) and (3,3) samples)",
-    "the diagonal of a bra-ket antisymmetric tensor (upper group == lower group, bra_ket_sym=-1) is mathematically zero; "
-    "the constructor keeps it as an object - not counted as a forced zero here (reported separately)",
-    "bra-ket partners are only required to be identified when the two groups differ in (space, spin, name) of some "
-    "index: for two distinct Index objects with the same name, space and spin (possible because Index is a Dummy) "
-    "the comparison has no preference and d^{i}_{i'} / d^{i'}_{i} stay distinct (reported separately)",
-    "Expr class invariant used by the reference state machine: the content of an Expr already carries the symmetry of "
-    "its current declaration (established by __init__, kept by the in-place operators), `terms` enumerates the summands "
-    "of the current content, Term/Obj read the assumptions of the owning Expr when they are called; because of the "
-    "invariant re-applying an unchanged declaration is not distinguished from not applying it",
-    "whether a content is a plain number is decided once per path for the original content (images of a number under "
-    "the container methods are that number)",
+    "value preservation under the declared assumptions is not decided (only that exactly the declared tensors are "
+    "re-canonicalised with the complete declaration, everything else is left as it is)",
+    "index tuples are explored up to rank (2,2) over a pool of 4-6 abstract indices (thorough: pool of 8, (2,1) and (3,3) samples); "
+    "container clauses are decided on the model expressions listed in Scene.small / Scene.rich",
+    "re-applying an unchanged declaration is not distinguished from not applying it (same value); that a real expression "
+    "is not processed again by make_real is decided by counting the container objects the call builds",
+    "NormalOrdered containers are outside the model expressions",
 ]
 
 SO = "sympy_objects"
@@ -81,14 +82,16 @@ def _name_key(n):
 
 
 def _ikey(s):
-    """Independent statement of the canonical key of one index."""
+    """Independent statement of the canonical key of one index: space, spin, number, letter and - so that two distinct
+    indices never tie ('i' / 'i0', two index objects of one name) - the identity of the dummy."""
     a = s.attrs
-    return (a["space"][0], a["spin"]) + _name_key(a["name"])
+    return (a["space"][0], a["spin"]) + _name_key(a["name"]) + (a["dummy_index"],)
 
 
 def _gkey(t):
     """Key of an index group as the bra-ket comparison sees it: spaces, then spins, then names."""
-    return ([s.attrs["space"][0] for s in t], [s.attrs["spin"] for s in t], [_name_key(s.attrs["name"]) for s in t])
+    return ([s.attrs["space"][0] for s in t], [s.attrs["spin"] for s in t],
+            [_name_key(s.attrs["name"]) + (s.attrs["dummy_index"],) for s in t])
 
 
 # ------------------------------------------------------------------ primitives
@@ -144,7 +147,9 @@ def _symbol(sx, a, kw):
 
 def _tensor_sx(ctx, what, hooks=None):
     hk = {"_sort_anticommuting_fermions": _sort_fermions, "super": _super, "S": sk.S_OBJ,
-          "sympify": lambda sx, a, kw: a[0], "type": sk.type_hook, "__new__": _new, "Symbol": _symbol}
+          "sympify": lambda sx, a, kw: a[0], "type": sk.type_hook, "Symbol": _symbol}
+    for base in ("object", "Expr", "Basic", "AtomicExpr"):       # allocation spelled with an external base class
+        hk[f"{base}.__new__"] = _new
     hk.update(hooks or {})
     return Symex(ctx.model, inline=lambda q: True, hooks=hk, what=what)
 
@@ -177,65 +182,226 @@ def _decode_new(v):
     return (sign, cls, name, groups[0], groups[1], bks)
 
 
+# ---------------------------------------------------------------------- constructors as functions
+
+class Ctor:
+    """The public constructor of one tensor class, evaluated end to end (sort key, bra-ket comparison and every private
+    helper inlined) on abstract indices; results are decoded into (sign, upper group, lower group) of index records."""
+
+    def __init__(self, ctx, cname, sx=None):
+        self.cname = cname
+        self.sx = sx or _tensor_sx(ctx, f"{cname}(...)")
+        self.fn = _resolve(self.sx, cname, "__new__")
+        self.cls = Obj(f"{SO}:{cname}", cname)
+        self.n = 0
+
+    def __call__(self, up, lo, bks, name="X"):
+        """("ok", sign, upper, lower) | ("zero",) | ("raise", exc) | ("shape", text)"""
+        outs = self.sx.run(self.fn, lambda: dict(cls=self.cls, name=name, upper=tuple(up), lower=tuple(lo), bra_ket_sym=bks))
+        self.n += 1
+        if len(outs) != 1:
+            return ("shape", f"{len(outs)} paths: {outs}")
+        o = outs[0]
+        if o.kind != "return":
+            return ("raise", o.exc)
+        d = _decode_new(o.value)
+        if d is None:
+            return ("shape", show(_freeze(o.value))[:200])
+        if d == 0:
+            return ("zero",)
+        sign, k, nm, cu, cl, b = d
+        by_term = {_freeze(x): x for x in tuple(up) + tuple(lo)}
+        try:
+            cu, cl = tuple(by_term[x] for x in cu), tuple(by_term[x] for x in cl)
+        except KeyError:
+            return ("shape", f"foreign indices in {show(_freeze(o.value))[:200]}")
+        if k != sym(self.cname) or nm != name or b != bks:
+            return ("shape", f"class/name/symmetry stored as {show(k)}, {nm!r}, {b}")
+        return ("ok", sign, cu, cl)
+
+
 # ---------------------------------------------------------------------- R06a
 
 def r06a(ctx):
-    sx = _tensor_sx(ctx, "_need_bra_ket_swap")
-    names = ["i", "j", "i1", "j2"]
-    one = [(_ix(sp, s, n),) for sp in SPACES for s in SPINS for n in names]
+    """The bra-ket ordering as the constructor applies it: for sorted groups u != l exactly one of K(u,l) / K(l,u) has its
+    groups exchanged (a strict total order on the (space, spin, name) keys => one canonical form)."""
+    rule = "R06a"
+    names = ["i", "i0", "i1", "j2"] if ctx.tier != "thorough" else ["i", "i0", "j", "i1", "j2", "i01"]
+    one = [(_ix(sp, s, n),) for sp in SPACES for s in (SPINS if ctx.tier == "thorough" else SPINS[:2]) for n in names]
+    # two distinct index objects with the same (space, spin, name): equal keys
+    one += [(_ix("occ", "", "i", tag="'"),), (_ix("virt", "a", "i1", tag="'"),)]
     two_src = [_ix(sp, s, n) for sp in ("occ", "virt") for s in ("", "a") for n in ("i", "j1")]
     if ctx.tier != "thorough":
-        two_src = [x for k, x in enumerate(two_src) if k not in (3, 4)]
-    two = [(a, b) for a in two_src for b in two_src]
+        two_src = [x for k, x in enumerate(two_src) if k not in (2, 3, 4)]
     done = {}
     for cname in TENSOR_CLASSES:
-        fn = _resolve(sx, cname, "_need_bra_ket_swap")
-        if id(fn) in done:
-            ctx.ok("R06a", fn, f"{cname} shares the bra-ket ordering of {done[id(fn)]}", key=f"shared {cname}")
-            continue
-        done[id(fn)] = cname
-        cls = Obj(f"{SO}:{cname}", cname)
-
-        def swap(u, l):
-            outs = sx.run(fn, lambda: dict(cls=cls, upper=list(u), lower=list(l)))
-            if len(outs) != 1 or outs[0].kind != "return" or not isinstance(outs[0].value, bool):
-                raise AnalysisError(f"R06a: {cname}._need_bra_ket_swap({u}, {l}) -> {outs}")
-            return outs[0].value
+        K = Ctor(ctx, cname)
         n_pairs = 0
-        viol = {"both": None, "none": None, "equal": None}
-        for group in (one, two):
-            res = {(iu, il): swap(u, l) for iu, u in enumerate(group) for il, l in enumerate(group)}
+        viol = {"both": None, "none": None, "equal": None, "shape": None}
+        thin = id(K.fn) in done and ctx.tier != "thorough"      # same public constructor: a sample is repeated
+        done.setdefault(id(K.fn), cname)
+        # 2-index groups are given in both internal orders: the comparison has to be made on the sorted groups
+        two = [(a, b) for a in two_src for b in two_src if a is not b]
+        for group in ((one[::3] + one[-2:] if thin else one), (two[::5] if thin else two)):
+            res = {}
             for iu, u in enumerate(group):
                 for il, l in enumerate(group):
-                    n_pairs += 1
-                    a, b = res[(iu, il)], res[(il, iu)]
-                    same = _gkey(u) == _gkey(l)
-                    if a and b and viol["both"] is None:
-                        viol["both"] = (u, l)
-                    if not same and not a and not b and viol["none"] is None:
-                        viol["none"] = (u, l)
-                    if same and (a or b) and viol["equal"] is None:
-                        viol["equal"] = (u, l)
-        ctx.check("R06a", fn, viol["both"] is None, f"{cname}: {n_pairs} ordered pairs: never swap in both directions",
-                  f"{cname}: swap demanded in both directions for upper/lower = {viol['both']}: the two orderings "
+                    if set(map(id, u)) == set(map(id, l)):
+                        continue
+                    r = K(u, l, 1)
+                    if r[0] != "ok":
+                        viol["shape"] = viol["shape"] or f"{cname}({list(u)}, {list(l)}, bra_ket_sym=1) -> {r}"
+                        continue
+                    _, sign, cu, cl = r
+                    straight = _is_perm(cu, u) and _is_perm(cl, l)
+                    swapped = _is_perm(cu, l) and _is_perm(cl, u)
+                    if straight == swapped:
+                        viol["shape"] = viol["shape"] or f"{cname}({list(u)}, {list(l)}, 1): groups {list(cu)} / {list(cl)}"
+                        continue
+                    res[(iu, il)] = swapped
+            for (iu, il), a in res.items():
+                if (il, iu) not in res:
+                    continue
+                n_pairs += 1
+                b = res[(il, iu)]
+                u, l = group[iu], group[il]
+                same = sorted(map(_ikey, u)) == sorted(map(_ikey, l))
+                if a and b:
+                    viol["both"] = viol["both"] or (u, l)
+                if not same and not a and not b:
+                    viol["none"] = viol["none"] or (u, l)
+                if same and (a or b):
+                    viol["equal"] = viol["equal"] or (u, l)
+        ctx.check(rule, K.fn, viol["shape"] is None, f"{cname}: bra-ket symmetric construction gives one object with the given groups",
+                  f"{viol['shape']}", key=f"shape {cname}")
+        ctx.check(rule, K.fn, viol["both"] is None, f"{cname}: {n_pairs} ordered pairs: never exchanged in both directions",
+                  f"{cname}: upper/lower = {viol['both']} and the reverse are both exchanged: the two orderings "
                   "of one tensor get different canonical forms (or oscillate)", key=f"asymmetric {cname}")
-        ctx.check("R06a", fn, viol["none"] is None, f"{cname}: distinct keys: exactly one direction swaps",
-                  f"{cname}: no direction swaps although keys differ for {viol['none']}: bra-ket partners are not "
-                  "identified", key=f"total {cname}")
-        ctx.check("R06a", fn, viol["equal"] is None, f"{cname}: equal keys: no swap",
-                  f"{cname}: swap demanded for equal keys {viol['equal']}", key=f"irreflexive {cname}")
-        outs = sx.run(fn, lambda: dict(cls=cls, upper=[one[0][0]], lower=[]))
-        ctx.check("R06a", fn, all(o.kind == "raise" for o in outs), f"{cname}: unequal group sizes refused",
-                  f"{cname}: unequal numbers of upper and lower indices are not refused", key=f"len {cname}")
+        ctx.check(rule, K.fn, viol["none"] is None, f"{cname}: distinct keys: exactly one direction is exchanged",
+                  f"{cname}: neither {viol['none']} nor the reverse is exchanged although the keys differ: bra-ket partners "
+                  "are not identified", key=f"total {cname}")
+        ctx.check(rule, K.fn, viol["equal"] is None, f"{cname}: equal keys: no exchange",
+                  f"{cname}: groups with equal keys {viol['equal']} are exchanged", key=f"irreflexive {cname}")
+        flipped = [u for u in one[:9] for r in [K(u, u, 1)] if r[0] != "ok" or r[1] != 1]
+        ctx.check(rule, K.fn, not flipped, f"{cname}: a group is not exchanged with itself",
+                  f"{cname}({list(flipped[0]) if flipped else ''}, the same group, bra_ket_sym=+1) does not give +(one object)",
+                  key=f"self {cname}")
+        r = K((one[0][0],), (), 1)
+        ctx.check(rule, K.fn, r[0] == "raise", f"{cname}: bra-ket symmetry with unequal group sizes refused",
+                  f"{cname}: bra-ket symmetry with unequal numbers of upper and lower indices gives {r}", key=f"len {cname}")
+        if not ctx.violations:
+            ctx.floor(rule, f"compared pairs of {cname}", n_pairs, 20)
+
+
+# ---------------------------------------------------------------------- R06c
+
+def _sort_key(sx, x):
+    """The library's canonical sort key of one index (public function of indices.py), evaluated."""
+    outs = sx.run("indices:sort_idx_canonical", lambda: dict(idx=x))
+    if len(outs) != 1 or outs[0].kind != "return" or _has_term(outs[0].value):
+        raise AnalysisError(f"R06c: sort_idx_canonical({x}) -> {outs}")
+    return outs[0].value
+
+
+def _parity_to(src, dst):
+    """Parity of the permutation src -> dst of distinct objects (None if dst is not a permutation of src)."""
+    if not _is_perm(src, dst) or len(set(map(id, src))) != len(src):
+        return None
+    return _perm_sign(src, dst)
+
+
+def r06c(ctx):
+    """The constructors on scenario inputs against the formula: groups sorted by the canonical key; exchanged exactly
+    when a bra-ket symmetry is declared, all entries are indices and the sorted groups are in the non-canonical
+    orientation (the orientation the constructor takes for the sorted groups with symmetry +1); sign = parity of the
+    two sorts (antisymmetric groups) times bra_ket_sym if exchanged; zero / refusal where the symmetry says so."""
+    rule = "R06c"
+    done = {}
+    for cname in TENSOR_CLASSES:
+        K = Ctor(ctx, cname)
+        if id(K.fn) in done:
+            ctx.ok(rule, K.fn, f"{cname} is constructed by the constructor of {done[id(K.fn)]}", key=f"shared {cname}")
+            continue
+        done[id(K.fn)] = cname
+        antisym = cname != "SymmetricTensor"
+        i, j, a, b = _ix("occ", "", "i"), _ix("occ", "", "j"), _ix("virt", "", "a"), _ix("virt", "", "b")
+        foreign = Obj(None, "x")
+        foreign.attrs.update(_classes=("Dummy", "Symbol"), name="x", dummy_index=0)
+        keys = {id(x): _sort_key(K.sx, x) for x in (i, j, a, b, foreign)}
+
+        def srt(g):
+            return tuple(sorted(g, key=lambda x: keys[id(x)]))
+        n = 0
+        for g1, g2 in (((i, j), (a, b)), ((a, b), (i, j)), ((i, a), (j, b)), ((j, b), (i, a))):
+            ref = K(srt(g1), srt(g2), 1)
+            if ref[0] != "ok":
+                ctx.bad(rule, K.fn, f"{cname}({list(srt(g1))}, {list(srt(g2))}, 1) -> {ref}", key=f"{cname} reference {g1}")
+                continue
+            exchange = _same_objs(ref[2], srt(g2)) and _same_objs(ref[3], srt(g1))
+            for pu, pl, bks, all_index in itertools.product((False, True), (False, True), (0, 1, -1), (True, False)):
+                up = tuple(reversed(g1)) if pu else tuple(g1)
+                lo = tuple(reversed(g2)) if pl else tuple(g2)
+                if not all_index:
+                    up = (foreign,) + up[1:] if not pu else up[:1] + (foreign,)
+                label = f"{cname}({list(up)}, {list(lo)}, bra_ket_sym={bks})"
+                r = K(up, lo, bks, name="T")
+                n += 1
+                if r[0] != "ok":
+                    ctx.bad(rule, K.fn, f"{label} -> {r}", key=label)
+                    continue
+                _, sign, cu, cl = r
+                do_swap = exchange and bks != 0 and all_index
+                w_up, w_lo = (srt(lo), srt(up)) if do_swap else (srt(up), srt(lo))
+                w_sign = (_parity_to(up, srt(up)) * _parity_to(lo, srt(lo))) if antisym else 1
+                if do_swap and bks == -1:
+                    w_sign = -w_sign
+                why = []
+                if not (_same_objs(cu, w_up) and _same_objs(cl, w_lo)):
+                    why.append(f"groups are {list(cu)} / {list(cl)}, expected {list(w_up)} / {list(w_lo)} (sorted with the canonical "
+                               f"key, {'exchanged' if do_swap else 'not exchanged'})")
+                elif sign != w_sign:
+                    why.append(f"sign is {sign:+d}, the declared symmetry prescribes {w_sign:+d}")
+                ctx.check(rule, K.fn, not why, f"{label}: sorted groups, exchange and sign as prescribed", f"{label}: " + "; ".join(why),
+                          key=label)
+        # the diagonal: bra-ket antisymmetry forces zero, symmetry / no symmetry give the tensor
+        for up, lo in (((i,), (i,)), ((i, j), (i, j)), ((i, j), (j, i)), ((a, i), (i, a))):
+            for bks in (0, 1, -1):
+                r = K(up, lo, bks)
+                n += 1
+                label = f"{cname}({list(up)}, {list(lo)}, bra_ket_sym={bks})"
+                if bks == -1:
+                    ok, want = r[0] == "zero", "zero (d = -d)"
+                else:
+                    w_sign = (_parity_to(up, srt(up)) * _parity_to(lo, srt(lo))) if antisym else 1
+                    ok = r[0] == "ok" and r[1] == w_sign and _same_objs(r[2], srt(up)) and _same_objs(r[3], srt(lo))
+                    want = f"{w_sign:+d} the tensor with sorted groups"
+                ctx.check(rule, K.fn, ok, f"{label}: {want}", f"{label} gives {r}, expected {want}", key=label)
+        r = K((foreign, i), (foreign, i), -1)
+        ctx.check(rule, K.fn, r[0] == "ok", "entries that are not indices: no bra-ket treatment",
+                  f"{cname}([x, i], [x, i], bra_ket_sym=-1) with a non-Index entry gives {r}", key=f"{cname} diagonal foreign")
+        r = K((i, j), (a, b), 2)
+        ctx.check(rule, K.fn, r[0] == "raise", "bra_ket_sym=2 refused", f"invalid bra-ket symmetry 2 gives {r}", key=f"{cname} invalid bks")
+        r = K((i, i), (a, b), 0)
+        if antisym:
+            ctx.check(rule, K.fn, r[0] == "zero", "repeated index in an antisymmetric group gives zero",
+                      f"{cname}([i, i], [a, b]) gives {r} instead of zero", key=f"{cname} pauli")
+        else:
+            ctx.check(rule, K.fn, r[0] == "ok", "repeated index in a symmetric group does not vanish",
+                      f"a symmetric tensor with a repeated index inside a group evaluates to {r}; the declared "
+                      "symmetry does not force it to zero", key=f"{cname} symmetric repeated")
+        if not ctx.violations:
+            ctx.floor(rule, f"constructor scenarios of {cname}", n, 40)
 
 
 # ---------------------------------------------------------------------- R06b
 
 def _pool(tier):
-    p = [_ix("occ", "", "i"), _ix("occ", "", "j"), _ix("virt", "", "a"), _ix("occ", "a", "i"), _ix("general", "", "p"),
-         _ix("occ", "", "i1")]
+    """The first four indices are used for rank (2,2) in the quick tier; names that tie in (number, letter) - 'i' / 'i0' -
+    and a second, distinct index object named i are part of every tier."""
+    p = [_ix("occ", "", "i"), _ix("occ", "", "i0"), _ix("virt", "", "a"), _ix("occ", "", "i", tag="#2"),
+         _ix("occ", "a", "i"), _ix("general", "", "p"), _ix("occ", "", "j"), _ix("occ", "", "i1")]
     if tier == "thorough":
-        p += [_ix("virt", "b", "a"), _ix("occ", "", "i", tag="#2")]     # a second, distinct dummy named i
+        p += [_ix("virt", "b", "a"), _ix("virt", "", "a0")]
     return p
 
 
@@ -269,20 +435,20 @@ def r06b(ctx):
         fn = _resolve(sx, cname, "__new__")
         antisym = cname != "SymmetricTensor"
         cls = Obj(f"{SO}:{cname}", cname)
-        # a class that resolves to the constructor and comparison of an already explored class computes the same
-        # function of (cls, indices): only the small ranks are repeated for it
-        impl = (id(fn), id(_resolve(sx, cname, "_need_bra_ket_swap")))
+        # a class that resolves to the public constructor of an already explored class: a smaller pool is repeated for
+        # it (whatever the constructor consults through ``cls`` is still evaluated for this class)
+        impl = id(fn)
         ranks = [(1, 1)]
         samples = {}
         if impl not in seen or thorough:
-            samples[(2, 2)] = pool if thorough else pool[:5]
+            samples[(2, 2)] = pool[:8] if thorough else pool[:4]
         else:
             samples[(2, 2)] = pool[:3]
         if thorough:
             ranks.append((2, 1))
-            samples[(3, 3)] = pool[:3] + pool[5:6]
+            samples[(3, 3)] = pool[:4]
         seen[impl] = cname
-        n_eval = n_twins = 0
+        n_eval = 0
         bad = {}
 
         def flag(kind, msg):
@@ -319,6 +485,12 @@ def r06b(ctx):
                     if d != 0:
                         flag("pauli", f"{what}: repeated index in an antisymmetric group does not give zero")
                     continue
+                if bks == -1 and nu == nl and _is_perm(up, lo):
+                    # d^{pq}_{pq} = -d^{pq}_{pq}: the diagonal of a bra-ket antisymmetric tensor vanishes
+                    if d != 0:
+                        flag("diagonal", f"{what}: upper and lower group coincide, bra-ket antisymmetry forces zero, "
+                             f"the constructor gives an object")
+                    continue
                 if d == 0:
                     flag("zero", f"{what} evaluates to zero although the declared symmetry does not force it" +
                          ("" if antisym else " (a symmetric tensor with a repeated index inside a group does not vanish)"))
@@ -354,10 +526,7 @@ def r06b(ctx):
                                  f"{'+' if s2 > 0 else '-'}T: relative sign {s2 * sign:+d}, the permutation symmetry prescribes {want:+d}")
                 # bra-ket partner
                 o2 = table.get((kl, ku)) if nu == nl else None
-                twins = sorted(map(_ikey, up)) == sorted(map(_ikey, lo)) and not _is_perm(up, lo)
-                if twins:
-                    n_twins += 1        # distinct indices with equal (space, spin, name): see ASSUMPTIONS
-                elif o2 is not None and o2[2] != 0:
+                if o2 is not None and o2[2] != 0:
                     s2, cu2, cl2 = o2[2][:3]
                     if bks == 0:
                         if _same_objs(cu, cu2) and _same_objs(cl, cl2) and not (_is_perm(up, lo)):
@@ -371,6 +540,7 @@ def r06b(ctx):
                                  f"{list(up)}) = {'+' if s2 > 0 else '-'}T: relative sign {s2 * sign:+d}, bra_ket_sym prescribes {bks:+d}")
         for kind, fact in (("raises", "constructors return"), ("shape", "result is zero or +-(one object)"),
                            ("pauli", "repeated index in an antisymmetric group gives zero"),
+                           ("diagonal", "the diagonal of a bra-ket antisymmetric tensor is zero"),
                            ("zero", "nothing else gives zero"), ("identity", "class, name and symmetry kept"),
                            ("groups", "canonical groups are the given groups (exchanged only under bra-ket symmetry)"),
                            ("canonical", "all orderings inside the groups give one object"),
@@ -379,146 +549,8 @@ def r06b(ctx):
                            ("braket", "bra-ket partners give one object"), ("braket sign", "bra-ket partners differ by bra_ket_sym")):
             ctx.check(rule, fn, kind not in bad, f"{cname}: {fact} ({n_eval} constructions)", bad.get(kind, ""),
                       key=f"{cname} {kind}")
-        ctx.floor(rule, f"evaluated constructions of {cname}", n_eval, 100)
-
-
-# ---------------------------------------------------------------------- R06c
-
-def _new_scenarios(ctx, cls_name, antisym: bool):
-    rule = "R06c"
-    probe_sx = _tensor_sx(ctx, "sort key")
-    canonical = Func(ctx.model.fn("indices:sort_idx_canonical"), [], ctx.model.module("indices"), "sort_idx_canonical")
-    probes = [_ix("occ", "", "i"), _ix("virt", "a", "b2"), _ix("general", "b", "p11")]
-    fn = _resolve(probe_sx, cls_name, "__new__")
-    U0 = (_ix("occ", "", "i"), _ix("occ", "", "j"))
-    L0 = (_ix("virt", "", "a"), _ix("virt", "", "b"))
-    n = 0
-    for sign_u, sign_l, need, bks, all_index in itertools.product((0, 1), (0, 1), (False, True), (0, 1, -1), (True, False)):
-        if not antisym and (sign_u or sign_l):
-            continue
-        foreign = Obj(None, "x")
-        foreign.attrs["_classes"] = ("Dummy", "Symbol")
-        up = tuple(U0) if all_index else (foreign, U0[0])      # a non-Index entry sorts in front of every Index
-        lo = tuple(L0)
-        sorted_u = tuple(reversed(up)) if sign_u else up
-        sorted_l = tuple(reversed(lo)) if sign_l else lo
-        log = {"swap": [], "keys": [], "unknown": []}
-
-        def which(seq, up=up, lo=lo, su=sorted_u, sl=sorted_l):
-            seq = tuple(seq)
-            if _same_objs(seq, up):
-                return su
-            if _same_objs(seq, lo):
-                return sl
-            log["unknown"].append(seq)
-            return seq
-
-        def check_key(sx, kw, a):
-            key = kw.get("key", a[1] if len(a) > 1 else None)
-            if key is None:
-                log["keys"].append("no key")
-                return
-            for p in probes:
-                got = sx.call_value(key, [p], {}, None)
-                want = sx.call_value(canonical, [p], {}, None)
-                if got != want:
-                    log["keys"].append(f"key({p}) = {show(_freeze(got))}, sort_idx_canonical gives {show(_freeze(want))}")
-                    return
-
-        def sort_fermions(sx, a, kw, sign_u=sign_u, sign_l=sign_l, up=up):
-            check_key(sx, kw, a)
-            seq = tuple(sx.iterate(a[0], None))
-            return (list(which(seq)), sign_u if _same_objs(seq, up) else sign_l)
-
-        def sorted_(sx, a, kw):
-            check_key(sx, kw, a)
-            return list(which(sx.iterate(a[0], None)))
-
-        def need_swap(sx, a, kw, need=need):
-            u, l = (kw["upper"], kw["lower"]) if "upper" in kw and "lower" in kw else \
-                (a[-1], kw["lower"]) if "lower" in kw else (a[-2], a[-1])
-            log["swap"].append((tuple(sx.iterate(u, None)), tuple(sx.iterate(l, None))))
-            return need
-        sx = _tensor_sx(ctx, f"{cls_name}.__new__", {"_sort_anticommuting_fermions": sort_fermions, "sorted": sorted_,
-                                                     "_need_bra_ket_swap": need_swap})
-
-        def make():
-            return dict(cls=Obj(f"{SO}:{cls_name}", cls_name), name="T", upper=up, lower=lo, bra_ket_sym=bks)
-        outs = sx.run(fn, make)
-        n += 1
-        label = (f"parity_u={sign_u} parity_l={sign_l} swap_needed={need} bra_ket_sym={bks} all_Index={all_index}")
-        if len(outs) != 1 or outs[0].kind != "return":
-            ctx.bad(rule, fn, f"{label}: {outs}", key=label)
-            continue
-        d = _decode_new(outs[0].value)
-        if not d:
-            ctx.bad(rule, fn, f"{label}: unexpected result {show(_freeze(outs[0].value))[:200]}", key=label)
-            continue
-        sign, k, name, r_up, r_lo, r_bks = d
-        do_swap = need and bks != 0 and all_index
-        w_up, w_lo = (sorted_l, sorted_u) if do_swap else (sorted_u, sorted_l)
-        w_neg = ((sign_u + sign_l) % 2 == 1) if antisym else False
-        if do_swap and bks == -1:
-            w_neg = not w_neg
-        why = []
-        if (sign < 0) != w_neg:
-            why.append(f"sign is {'-' if sign < 0 else '+'}, declared symmetry prescribes {'-' if w_neg else '+'}")
-        if r_up != tuple(_freeze(x) for x in w_up) or r_lo != tuple(_freeze(x) for x in w_lo):
-            why.append("upper/lower groups are " + ("not " if do_swap else "") + "exchanged or not the sorted groups")
-        if r_bks != bks or name != "T":
-            why.append(f"name/symmetry stored as {name!r}/{r_bks}")
-        if log["keys"]:
-            why.append("index groups not sorted with the canonical key: " + log["keys"][0])
-        if log["unknown"]:
-            why.append(f"a sequence other than the given upper/lower group is sorted: {log['unknown'][0]}")
-        if log["swap"] and (do_swap or need):
-            su, sl = log["swap"][0]
-            if not (_same_objs(su, sorted_u) and _same_objs(sl, sorted_l)):
-                why.append("the bra-ket comparison is not made on the sorted groups")
-        if bks != 0 and all_index and not log["swap"]:
-            why.append("the bra-ket comparison is not consulted")
-        ctx.check(rule, fn, not why, f"{label}: sign/swap as prescribed", f"{label}: " + "; ".join(why), key=label)
-    # invalid symmetry refused
-    ident = {"_sort_anticommuting_fermions": lambda sx, a, kw: (list(sx.iterate(a[0], None)), 0),
-             "sorted": lambda sx, a, kw: list(sx.iterate(a[0], None))}
-    ident["_need_bra_ket_swap"] = lambda sx_, a, kw: False
-    sx = _tensor_sx(ctx, f"{cls_name}.__new__", ident)
-
-    def make2(bks, up):
-        return dict(cls=Obj(f"{SO}:{cls_name}", cls_name), name="T", upper=tuple(up), lower=tuple(L0), bra_ket_sym=bks)
-    outs = sx.run(fn, lambda: make2(2, U0))
-    ctx.check(rule, fn, all(o.kind == "raise" for o in outs), "bra_ket_sym=2 refused", "invalid bra-ket symmetry accepted",
-              key="invalid bks")
-
-    # repeated index inside a group: zero for antisymmetric groups, a regular tensor for symmetric ones
-    def pauli(sx_, a, kw):
-        seq = list(sx_.iterate(a[0], None))
-        if len({id(x) for x in seq}) != len(seq):
-            raise Raised("ViolationOfPauliPrinciple")
-        return (seq, 0)
-    sx = _tensor_sx(ctx, f"{cls_name}.__new__", dict(ident, _sort_anticommuting_fermions=pauli))
-    outs = sx.run(fn, lambda: make2(0, (U0[0], U0[0])))
-    d = _decode_new(outs[0].value) if len(outs) == 1 and outs[0].kind == "return" else None
-    if antisym:
-        ctx.check(rule, fn, d == 0, "repeated index in an antisymmetric group gives zero",
-                  f"Pauli violation gives {outs} instead of zero", key="pauli")
-    else:
-        ctx.check(rule, fn, bool(d), "repeated index in a symmetric group does not vanish",
-                  f"a symmetric tensor with a repeated index inside a group evaluates to {outs}; the declared "
-                  "symmetry does not force it to zero", key="symmetric repeated")
-    return n
-
-
-def r06c(ctx):
-    sx = _tensor_sx(ctx, "resolve")
-    done = {}
-    for cname in TENSOR_CLASSES:
-        fn = _resolve(sx, cname, "__new__")
-        if id(fn) in done:
-            ctx.ok("R06c", fn, f"{cname} is constructed by the constructor of {done[id(fn)]}", key=f"shared {cname}")
-            continue
-        done[id(fn)] = cname
-        _new_scenarios(ctx, cname, cname != "SymmetricTensor")
+        if not ctx.violations:
+            ctx.floor(rule, f"evaluated constructions of {cname}", n_eval, 100)
 
 
 # ---------------------------------------------------------------------- R06d
@@ -614,450 +646,503 @@ def _run_power(ctx, pw, pos, neg, minus_one):
     return sx.run(pw, args2)
 
 
-# ---------------------------------------------------------------------- R06e / R06f: containers
+# ---------------------------------------------------------------------- containers (R06e / R06f)
+#
+# Everything below enters the library through public names only: the constructors Expr(...), the tensor classes, the
+# public methods make_real / set_sym_tensors / set_antisym_tensors / rename_tensor / add_bra_ket_sym and the public
+# properties terms / objects / sympy / real / sym_tensors / antisym_tensors / provided_target_idx.  Whatever private
+# helper does the work (at whatever container level) is evaluated through.
 
-def _fv(ctx):
-    tn = sk.tensor_names_obj(ctx.model)
-    return {tn.attrs["fock"], tn.attrs["eri"]}
+class Scene:
+    """Concrete model expressions and the reference semantics of the assumption methods."""
 
+    def __init__(self, ctx):
+        self.ctx = ctx
+        self.cx = sk.Concrete(ctx, "containers", sort_fermions=_sort_fermions, max_depth=120, max_steps=2000000,
+                              hooks={"get_symbols": lambda sx, a, kw: tuple(sx.iterate(a[0], None))})
+        tn = sk.tensor_names_obj(ctx.model)
+        self.fock, self.eri, self.t = tn.attrs["fock"], tn.attrs["eri"], tn.attrs["gs_amplitude"]
+        self.fv = {self.fock, self.eri}
+        self.i, self.j = _ix("occ", "", "i"), _ix("occ", "", "j")
+        self.a, self.b = _ix("virt", "", "a"), _ix("virt", "", "b")
+        self.so = ctx.model.module(SO)
 
-def _target_hook(sx, a, kw):
-    me, val = a[0], (a[1] if len(a) > 1 else kw.get("target_idx"))
-    me.attrs["_target_idx"] = None if val is None else T("target", _freeze(val))
-    return None
+    # ---- model building (inside an evaluation)
+    def tensor(self, kind, name, up, lo, bks=0):
+        return _freeze(self.cx.construct(kind, name, tuple(up), tuple(lo), bks))
 
+    def nonsym(self, name, idx):
+        return _freeze(self.cx.construct("NonSymmetricTensor", name, tuple(idx)))
 
-class Ref:
-    """Reference transition functions of the Expr assumption state machine (the expected behaviour)."""
+    def delta(self, p, q):
+        return _freeze(self.cx.alloc(ClassRef(self.so, "KroneckerDelta"), (p, q)))
 
-    def __init__(self, ctx, sx, o, n):
-        self.sx, self.o, self.n = sx, o, n
-        self.fv = _fv(ctx)
+    def family(self, r):
+        short = r.cls.split(":")[-1]
+        return (short,) + tuple(self.cx.sx._bases(r.cls))
 
-    def lift(self, st, method, args=None):
-        if sk.is_number(self.o, st.expr):
+    def parts(self, r):
+        a = r.attrs.get("args", ())
+        name = a[0].attrs["name"] if a and isinstance(a[0], Obj) and "name" in a[0].attrs else None
+        return name, a[1:]
+
+    # ---- reference semantics on contents
+    def ref_apply(self, content, S, A):
+        """Exactly the tensors with a declared name that do not carry the symmetry yet are rebuilt with it."""
+        def f(r):
+            fam = self.family(r)
+            if "AntiSymmetricTensor" in fam:
+                name, (up, lo, b) = self.parts(r)
+                if name in S and b != 1:
+                    return self.cx.construct(fam[0], name, up, lo, 1)
+                if name in A and b != -1:
+                    return self.cx.construct(fam[0], name, up, lo, -1)
+            return r
+        return self.cx.map_leaves(content, f)
+
+    def ref_real(self, content):
+        """Complex conjugate t-amplitudes lose the mark, nothing else changes."""
+        pat = re.compile(re.escape(self.t) + r"(\d*)(c+)")
+
+        def f(r):
+            fam = self.family(r)
+            if "Amplitude" in fam:
+                name, (up, lo, b) = self.parts(r)
+                m = pat.fullmatch(name)
+                if m:
+                    return self.cx.construct(fam[0], self.t + m.group(1), up, lo, b)
+            return r
+        return self.cx.map_leaves(content, f)
+
+    def ref_rename(self, content, cur, new):
+        def f(r):
+            fam = self.family(r)
+            if "SymbolicTensor" in fam:
+                name, rest = self.parts(r)
+                if name == cur:
+                    return self.cx.construct(fam[0], new, *rest)
+            return r
+        return self.cx.map_leaves(content, f)
+
+    # ---- reference state machine
+    def r_apply(self, st):
+        st["content"] = self.ref_apply(st["content"], st["sym"], st["anti"])
+
+    def r_make_real(self, st):
+        if st["real"]:
             return
-        inner = sk.forwarded(self.sx, "Term", method, args or {})
-        st.expr = sk.expr_sum(self.sx, method, st, inner, self.n)
+        st["real"] = True
+        if not self.fv <= st["sym"]:
+            st["sym"] = st["sym"] | self.fv
+        self.r_apply(st)                 # re-applying an unchanged declaration changes nothing
+        st["content"] = self.ref_real(st["content"])
 
-    def apply(self, st):
-        self.lift(st, "_apply_tensor_braket_sym")
-
-    def make_real(self, st):
-        if st.real:
-            return
-        st.real = True
-        if not self.fv <= st.sym:
-            st.sym |= self.fv
-            self.apply(st)
-        self.lift(st, "make_real")
-
-    def set_sym(self, st, names):
-        new = set(names) | (self.fv if st.real else set())
-        if new != st.sym:
-            st.sym = new
-            self.apply(st)
-
-    def set_anti(self, st, names):
-        new = set(names)
-        if new != st.anti:
-            st.anti = new
-            self.apply(st)
-
-    def init(self, e, real, sym_tensors, antisym_tensors, target_idx):
-        st = ExprState(e, False, sym_tensors or (), antisym_tensors or (), None)
-        if target_idx is not None:
-            st.target = T("target", _freeze(target_idx))
-        if st.sym or st.anti:
-            if real:
-                st.sym |= self.fv
-            self.apply(st)
+    def r_init(self, content, real=False, sym_tensors=None, antisym_tensors=None, target=None):
+        st = dict(real=False, sym=set(sym_tensors or ()), anti=set(antisym_tensors or ()), content=content,
+                  target=None if target is None else tuple(target))
+        if st["sym"] or st["anti"]:
+            self.r_apply(st)
         if real:
-            self.make_real(st)
+            self.r_make_real(st)
         return st
 
+    def r_set_sym(self, st, names):
+        st["sym"] = set(names) | (self.fv if st["real"] else set())
+        self.r_apply(st)
 
-def _compare_state(ctx, rule, fn, what, o, me, want, key, returns_self=True):
-    if o.kind != "return":
-        ctx.bad(rule, fn, f"{what}: raises {o.exc}", key=key)
-        return
-    got = ExprState.of(me)
-    d = ["state destroyed"] if got is None else want.diff(got, N_TERMS)
-    ctx.check(rule, fn, not d, f"{what}: state as the reference prescribes ({want.text()[:150]})",
-              f"{what}: {', '.join(d)} differ(s): got {got.text() if got else '-'}; expected {want.text()}", key=key)
+    def r_set_anti(self, st, names):
+        st["anti"] = set(names)
+        self.r_apply(st)
+
+    # ---- observation through public properties
+    def observe(self, e):
+        cx = self.cx
+        tgt = cx.get(e, "provided_target_idx")
+        return dict(real=cx.get(e, "real"), sym=set(cx.get(e, "sym_tensors")), anti=set(cx.get(e, "antisym_tensors")),
+                    content=cx.get(e, "sympy"), target=None if tgt is None else tuple(tgt))
+
+    def diff(self, got, want):
+        """[(rule kind, text)]: 'state' for flags/sets, 'structure' for a content with the right leaves put together
+        wrongly (sum/product/exponent), 'leaves' for wrong tensors."""
+        cx = self.cx
+        out = []
+        if got["real"] is not want["real"]:
+            out.append(("state", f"real is {got['real']}, expected {want['real']}"))
+        for k, nm in (("sym", "sym_tensors"), ("anti", "antisym_tensors")):
+            if got[k] != want[k]:
+                out.append(("state", f"{nm} are {sorted(got[k])}, expected {sorted(want[k])}"))
+        if (got["target"] is None) != (want["target"] is None) or (got["target"] is not None and not
+                                                                    _same_objs(got["target"], want["target"])):
+            out.append(("state", f"target indices are {got['target']}, expected {want['target']}"))
+        g, w = cx.value(got["content"]), cx.value(want["content"])
+        if g != w:
+            kind = "structure" if self.leaf_multiset(got["content"]) == self.leaf_multiset(want["content"]) else "leaves"
+            out.append((kind, f"content is {g[:700]}; expected {w[:700]}"))
+        return out
+
+    def leaf_multiset(self, content):
+        from ..terms import subterms
+        c = _freeze(content)
+        return sorted(repr(self.cx.leaf_key(x)) for x in (subterms(c) if isinstance(c, T) else [])
+                      if x.op == "sym" and x.args[0] in self.cx.leaves)
+
+    # ---- model contents
+    def small(self):
+        """f t1cc + x y x' + V + x^b_i + x^i_b  (f and x need an exchange once they are bra-ket symmetric)."""
+        i, j, a, b = self.i, self.j, self.a, self.b
+        F = self.tensor("AntiSymmetricTensor", self.fock, (a,), (i,))
+        T1 = self.tensor("Amplitude", f"{self.t}1cc", (a,), (i,))
+        X = self.tensor("AntiSymmetricTensor", "x", (a,), (j,))
+        X2 = self.tensor("AntiSymmetricTensor", "x", (i,), (b,))
+        Y = self.tensor("AntiSymmetricTensor", "y", (b,), (j,))
+        V = self.tensor("AntiSymmetricTensor", self.eri, (b, a), (i, j))
+        # bra-ket partners: one summand once x is declared symmetric (sympy collects equal summands)
+        P, Q = self.tensor("AntiSymmetricTensor", "x", (b,), (i,)), self.tensor("AntiSymmetricTensor", "x", (i,), (b,))
+        G, H = self.tensor("AntiSymmetricTensor", self.fock, (b,), (j,)), self.tensor("AntiSymmetricTensor", self.fock, (j,), (b,))
+        return t_add(t_mul(F, T1), t_mul(X, Y, X2), V, P, Q, G, H)
+
+    def rich(self):
+        """Products with prefactors, an exponent on a tensor, a polynom with and without exponent, a delta-only term,
+        every tensor class, declared / undeclared names, tensors that already carry a symmetry."""
+        i, j, a, b = self.i, self.j, self.a, self.b
+        A, AM, SY = "AntiSymmetricTensor", "Amplitude", "SymmetricTensor"
+        F = self.tensor(A, self.fock, (a,), (i,))
+        V = self.tensor(A, self.eri, (a, b), (j, i))
+        X = self.tensor(A, "x", (a,), (i,))
+        XS = self.tensor(A, "x", (b,), (j,), 1)
+        XA = self.tensor(AM, "x", (a, b), (i, j))
+        XY = self.tensor(SY, "x", (b, a), (j, i))
+        Y = self.tensor(A, "y", (a,), (j,))
+        YA = self.tensor(A, "y", (b,), (i,), -1)
+        Z = self.tensor(A, "z", (a,), (i,))
+        ZS = self.tensor(A, "z", (b,), (i,), 1)
+        NX = self.nonsym("x", (i, a))
+        T1 = self.tensor(AM, f"{self.t}1cc", (a,), (i,))
+        T2 = self.tensor(AM, f"{self.t}2cc", (a, b), (i, j), 1)
+        T3 = self.tensor(AM, f"{self.t}2", (a, b), (i, j), 1)
+        TC = self.tensor(AM, f"{self.t}cc", (b,), (j,))
+        D = self.delta(i, j)
+        return t_add(t_mul(2, F, T1, t_pow(X, 2)),
+                     t_mul(t_pow(t_add(Y, t_mul(Z, XA), TC), 3), D, NX),
+                     t_mul(Fraction(1, 2), XY, T2, V, XS),
+                     t_mul(t_add(X, YA), ZS, T3),
+                     t_mul(3, D))
 
 
-def _path_tag(o):
-    return "".join("1" if p else "0" for _, p in o.path) or "-"
+def _report(ctx, scene, rule_leaves, node, label, key, diffs):
+    """One obligation per clause kind; 'structure' always belongs to the homomorphism rule R06e."""
+    rules = {"state": "R06f", "structure": "R06e", "leaves": rule_leaves}
+    by = {}
+    for kind, text in diffs:
+        by.setdefault(rules[kind], []).append(text)
+    for rule in sorted(set(rules.values())):
+        ctx.check(rule, node, rule not in by, f"{label}: as the reference prescribes", f"{label}: " + "; ".join(by.get(rule, [])),
+                  key=f"{key} [{rule}]")
 
 
-N_TERMS = 2
+class _Paths:
+    """Several paths through a concrete scenario (some value the library compares or iterates is not concrete)."""
+    kind = "paths"
+    exc = None
+
+    def __init__(self, outs):
+        self.value = f"{len(outs)} paths, e.g. {outs[0]!r}"[:400]
+        self.outs = outs
 
 
-def _canonical_state(sx, real, sym_tensors, antisym_tensors):
-    """An Expr state that satisfies the class invariant: the content carries the declared symmetry already."""
-    st = ExprState(sym("E0"), real, sym_tensors, antisym_tensors, None)
-    st.expr = sk.canonical_content(sx, st, N_TERMS)
-    return st
+class _Diverges:
+    """The evaluation does not terminate (a method that ends up calling itself on the same content)."""
+    kind = "diverges"
+    value = None
+
+    def __init__(self, why):
+        self.exc = why
+
+
+def _one(ctx, scene, what, build, call, strict=True):
+    try:
+        res = scene.cx.run(build, call)
+    except AnalysisError as e:
+        if "recursion bound exceeded" in str(e) or "inlining depth exceeded" in str(e):
+            return _Diverges("unbounded recursion (" + str(e)[:120] + ")")
+        raise
+    if len(res) != 1:
+        if strict:
+            raise AnalysisError(f"R06: {what}: {len(res)} paths through a concrete scenario: {[o for o, _ in res][:3]}")
+        return _Paths([o for o, _ in res])
+    return res[0][0]
 
 
 def expr_machine(ctx):
-    """R06f (and the Expr level of R06e): Expr methods against the reference state machine."""
-    fv = sorted(_fv(ctx))
-    f_, v_ = fv[0], fv[1]
-    sx = sk.container_sx(ctx, "Expr state machine", n_terms=N_TERMS, hooks={"Expr.set_target_idx": _target_hook})
-    sets = [(), (f_,), (v_,), (f_, v_), ("x",), ("x", f_, v_)]
-    # --- make_real
-    fn = ctx.model.fn(f"{EC}:Expr.make_real")
-    for real, st_, anti in itertools.product((False, True), sets, ((), ("y",))):
-        if real and not set(fv) <= set(st_):
-            continue           # unreachable state: real expressions always declare fock and eri
-        start = _canonical_state(sx, real, st_, anti)
-        for o, me in sk.run_method(sx, fn, lambda: (start.obj(), {})):
-            want = start.copy()
-            Ref(ctx, sx, o, N_TERMS).make_real(want)
-            fresh = not real and set(fv) <= set(st_)
-            rule = "R06e" if fresh else "R06f"
-            what = f"make_real on real={real} sym_tensors={list(st_)} antisym_tensors={list(anti)}"
-            _compare_state(ctx, rule, fn, what, o, me, want, key=f"make_real {real} {st_} {anti} {_path_tag(o)}")
-            if o.kind == "return":
-                ctx.check(rule, fn, o.value is me, f"{what}: returns the expression",
-                          f"{what}: returns {show(_freeze(o.value))[:100]}", key=f"make_real returns {real} {st_} {anti} {_path_tag(o)}")
-    # --- _apply_tensor_braket_sym
-    fn = ctx.model.fn(f"{EC}:Expr._apply_tensor_braket_sym")
-    for real, st_, anti in ((False, ("x",), ("y",)), (True, (f_, v_), ()), (False, (), ())):
-        start = ExprState(sym("E"), real, st_, anti, None)
-        for o, me in sk.run_method(sx, fn, lambda: (start.obj(), {})):
-            want = start.copy()
-            Ref(ctx, sx, o, N_TERMS).apply(want)
-            _compare_state(ctx, "R06e", fn, f"_apply_tensor_braket_sym on sym_tensors={list(st_)} antisym_tensors={list(anti)}",
-                           o, me, want, key=f"apply {real} {st_} {anti} {_path_tag(o)}")
-    # --- rename_tensor
-    fn = ctx.model.fn(f"{EC}:Expr.rename_tensor")
-    for real, st_, anti in ((False, ("x",), ("y",)), (True, (f_, v_), ())):
-        start = ExprState(sym("E"), real, st_, anti, None)
-        for o, me in sk.run_method(sx, fn, lambda: (start.obj(), dict(current="a", new="b"))):
-            want = start.copy()
-            Ref(ctx, sx, o, N_TERMS).lift(want, "rename_tensor", dict(current="a", new="b"))
-            _compare_state(ctx, "R06e", fn, "rename_tensor('a', 'b')", o, me, want, key=f"rename {real} {_path_tag(o)}")
-            if o.kind == "return":
-                ctx.check("R06e", fn, o.value is me, "rename_tensor returns the expression",
-                          f"rename_tensor returns {show(_freeze(o.value))[:100]}", key=f"rename returns {real} {_path_tag(o)}")
-    for cur, new in ((1, "b"), ("a", None)):
-        start = ExprState(sym("E"), False, (), (), None)
-        res = sk.run_method(sx, fn, lambda: (start.obj(), dict(current=cur, new=new)))
-        ctx.check("R06e", fn, all(o.kind == "raise" for o, _ in res), "rename_tensor refuses names that are not strings",
-                  f"rename_tensor({cur!r}, {new!r}) is accepted", key=f"rename guard {cur!r} {new!r}")
-    # --- set_sym_tensors / set_antisym_tensors
-    for meth, field in (("set_sym_tensors", "sym"), ("set_antisym_tensors", "anti")):
-        fn = ctx.model.fn(f"{EC}:Expr.{meth}")
-        param = [a.arg for a in fn.args.args if a.arg != "self"][0]
-        for real, cur, names in itertools.product((False, True), sets, ([], ["x"], [f_], ["x", f_, v_], ["z", "x"], [f_, v_])):
-            if real and not set(fv) <= set(cur) and field == "sym":
-                continue
-            st_, anti = (cur, ()) if field == "sym" else ((f_, v_) if real else (), cur)
-            start = _canonical_state(sx, real, st_, anti)
-            for arg in (list(names), tuple(names)):
-                for o, me in sk.run_method(sx, fn, lambda: (start.obj(), {param: arg})):
-                    want = start.copy()
-                    ref = Ref(ctx, sx, o, N_TERMS)
-                    (ref.set_sym if field == "sym" else ref.set_anti)(want, names)
-                    _compare_state(ctx, "R06f", fn, f"{meth}({names}) on real={real} sym_tensors={list(st_)} antisym_tensors="
-                                   f"{list(anti)}", o, me, want, key=f"{meth} {real} {cur} {names} {type(arg).__name__} {_path_tag(o)}")
-        start = ExprState(sym("E"), False, (), (), None)
-        res = sk.run_method(sx, fn, lambda: (start.obj(), {param: ["x", 1]}))
-        ctx.check("R06f", fn, all(o.kind == "raise" for o, _ in res) and all(ExprState.of(me).same(start, N_TERMS) for _, me in res),
-                  f"{meth} refuses names that are not strings", f"{meth}(['x', 1]) is accepted or changes the state",
-                  key=f"{meth} guard")
-    # --- __init__
-    fn = ctx.model.fn(f"{EC}:Expr.__init__")
-    for real, st_, anti, tgt, wrapped in itertools.product((False, True), (None, [], ["x"], [f_], ["x", f_, v_]),
-                                                           (None, ["y"]), (None, ["i", "a"]), (False, True)):
-        if wrapped and (tgt is not None or anti is not None):
+    """R06f / R06e: the public assumption interface of Expr against the reference state machine on concrete contents."""
+    sc = Scene(ctx)
+    cx = sc.cx
+    f_, v_ = sc.fock, sc.eri
+    E = f"{EC}:Expr"
+    node = {m: ctx.model.fn(f"{E}.{m}") for m in ("__init__", "make_real", "set_sym_tensors", "set_antisym_tensors",
+                                                    "rename_tensor")}
+    thorough = ctx.tier == "thorough"
+    sets = [None, [], ["x"], [f_], [v_, "x"], ["x", f_, v_]] if thorough else [None, ["x"], [f_], ["x", f_, v_]]
+    # ---- Expr(...)
+    for real, st_, anti, tgt, wrapped in itertools.product((False, True), sets, (None, ["y"]), (False, True), (False, True)):
+        if (wrapped or tgt) and (anti is not None or st_ != ["x"] or (wrapped and tgt and not thorough)):
             continue
 
-        def make():
-            e = sym("E")
+        def call(content):
+            e = content
             if wrapped:
-                e = Obj(None, "container", sympy=sym("E"))
-                e.attrs["_classes"] = ("Container", "Expr")
-            me = Obj(f"{EC}:Expr", "self")
-            return me, dict(e=e, real=real, sym_tensors=None if st_ is None else list(st_),
-                            antisym_tensors=None if anti is None else list(anti), target_idx=tgt)
-        for o, me in sk.run_method(sx, fn, make):
-            want = Ref(ctx, sx, o, N_TERMS).init(sym("E"), real, st_, anti, tgt)
-            _compare_state(ctx, "R06f", fn, f"Expr(e, real={real}, sym_tensors={st_}, antisym_tensors={anti}"
-                           f"{', target_idx=..' if tgt is not None else ''}{', e wrapped' if wrapped else ''})", o, me, want,
-                           key=f"init {real} {st_} {anti} {tgt is not None} {wrapped} {_path_tag(o)}")
+                e = cx.construct("Expr", content)
+            kw = dict(real=real, sym_tensors=st_, antisym_tensors=anti)
+            if tgt:
+                kw["target_idx"] = [sc.b, sc.i]
+            got = sc.observe(cx.construct("Expr", e, **kw))
+            want = sc.r_init(content, real, st_, anti, sorted([sc.b, sc.i], key=_ikey) if tgt else None)
+            return sc.diff(got, want)
+        label = f"Expr(e, real={real}, sym_tensors={st_}, antisym_tensors={anti}{', target_idx=[b, i]' if tgt else ''}" \
+                f"{', e an Expr' if wrapped else ''})"
+        o = _one(ctx, sc, label, sc.small, call)
+        if o.kind != "return":
+            ctx.bad("R06f", node["__init__"], f"{label}: raises {o.exc}", key=f"init {label}")
+            continue
+        _report(ctx, sc, "R06f", node["__init__"], label, f"init {label}", o.value)
+    # ---- make_real / setters / rename on expressions created through the constructor
+    starts = [(False, s, a) for s in ([], ["x"], [f_], [f_, v_], ["x", f_, v_]) for a in ([], ["y"])] + \
+             [(True, s, a) for s in ([], ["x"]) for a in ([], ["y"])]
+    if not thorough:
+        starts = [x for k, x in enumerate(starts) if k not in (3, 4, 9, 12)]
+
+    def start(content, real, s, a):
+        e = cx.construct("Expr", content, real=real, sym_tensors=list(s), antisym_tensors=list(a))
+        return e, sc.r_init(content, real, s, a)
+    for real, s, a in starts:
+        label = f"make_real on Expr(real={real}, sym_tensors={s}, antisym_tensors={a})"
+
+        def call(content):
+            e, st = start(content, real, s, a)
+            before = dict(cx.count)
+            r = cx.call(e, "make_real")
+            work = {k: v - before.get(k, 0) for k, v in cx.count.items() if v != before.get(k, 0)}
+            sc.r_make_real(st)
+            d = sc.diff(sc.observe(e), st)
+            if r is not e:
+                d.append(("state", "does not return the expression itself"))
+            if real and work:
+                d.append(("state", f"an expression that is real already is processed again ({work} containers built)"))
+            return d
+        o = _one(ctx, sc, label, sc.small, call)
+        if o.kind != "return":
+            ctx.bad("R06f", node["make_real"], f"{label}: raises {o.exc}", key=label)
+            continue
+        fresh = not real and sc.fv <= set(s)         # pure lifting of Term.make_real: the homomorphism clause
+        _report(ctx, sc, "R06e" if fresh else "R06f", node["make_real"], label, label, o.value)
+    for meth, ref in (("set_sym_tensors", sc.r_set_sym), ("set_antisym_tensors", sc.r_set_anti)):
+        cases = [(False, [], [], n) for n in ([], ["x"], [f_], ["z", "x"], ["y"])] + \
+                [(False, ["x"], ["y"], n) for n in ([], ["x"], [f_, v_], ["z"])] + \
+                [(True, [], [], n) for n in ([], ["x"], [f_, v_])] + [(True, ["x"], [], n) for n in ([], ["z"])]
+        for real, s, a, names in cases:
+            if meth == "set_antisym_tensors" and ("x" in names or f_ in names):
+                continue        # declaring a name symmetric and antisymmetric is refused by the tensors
+            if meth == "set_sym_tensors" and "y" in names:
+                continue
+            for arg in ((list(names), tuple(names)) if thorough or (s and names) else (list(names),)):
+                label = f"{meth}({arg!r}) on Expr(real={real}, sym_tensors={s}, antisym_tensors={a})"
+
+                def call(content):
+                    e, st = start(content, real, s, a)
+                    cx.call(e, meth, arg)
+                    ref(st, names)
+                    return sc.diff(sc.observe(e), st)
+                o = _one(ctx, sc, label, sc.small, call)
+                if o.kind != "return":
+                    ctx.bad("R06f", node[meth], f"{label}: raises {o.exc}", key=label)
+                    continue
+                _report(ctx, sc, "R06f", node[meth], label, label, o.value)
+        label = f"{meth}(['x', 1])"
+
+        def call(content):
+            e, st = start(content, False, [], [])
+            try:
+                cx.call(e, meth, ["x", 1])
+            except Raised:
+                return sc.diff(sc.observe(e), st)
+            return [("state", "names that are not strings are accepted")]
+        o = _one(ctx, sc, label, sc.small, call, strict=False)
+        ctx.check("R06f", node[meth], o.kind == "return" and not o.value, f"{meth} refuses names that are not strings and changes nothing",
+                  f"{label}: {o.value if o.kind != 'raise' else o.exc}", key=f"{meth} guard")
+    # ---- rename_tensor
+    for real, s, a, cur, new in ((False, ["x"], ["y"], "x", "q"), (True, [], [], sc.fock, "g"), (False, [], [], "nothing", "q")):
+        label = f"rename_tensor({cur!r}, {new!r}) on Expr(real={real}, sym_tensors={s}, antisym_tensors={a})"
+
+        def call(content):
+            e, st = start(content, real, s, a)
+            r = cx.call(e, "rename_tensor", cur, new)
+            st["content"] = sc.ref_rename(st["content"], cur, new)
+            d = sc.diff(sc.observe(e), st)
+            if r is not e:
+                d.append(("state", "does not return the expression itself"))
+            return d
+        o = _one(ctx, sc, label, sc.rich, call)
+        if o.kind != "return":
+            ctx.bad("R06e", node["rename_tensor"], f"{label}: raises {o.exc}", key=label)
+            continue
+        _report(ctx, sc, "R06e", node["rename_tensor"], label, label, o.value)
+    for cur, new in ((1, "b"), ("a", None)):
+        def call(content):
+            e, st = start(content, False, [], [])
+            cx.call(e, "rename_tensor", cur, new)
+            return None
+        o = _one(ctx, sc, "rename guard", sc.small, call)
+        ctx.check("R06e", node["rename_tensor"], o.kind == "raise", "rename_tensor refuses names that are not strings",
+                  f"rename_tensor({cur!r}, {new!r}) is accepted", key=f"rename guard {cur!r} {new!r}")
 
 
-# ------------------------------------------------------------------ Obj level
+def lower_levels(ctx):
+    """R06e: the public methods of the lower container levels (Term, Obj, Polynom reached through the public properties
+    terms / objects) on the rich content: the containers enumerate all summands / factors, and make_real / rename_tensor
+    of a container give the reference image of what it holds - raw, or wrapped in an Expr with the assumptions."""
+    sc = Scene(ctx)
+    cx = sc.cx
+    node = ctx.model.cls(f"{EC}:Term")
+    methods = (("make_real", (), lambda c: sc.ref_real(c), True), ("rename_tensor", ("x", "q"), lambda c: sc.ref_rename(c, "x", "q"), None))
+    for real, s, a in ((False, ["x"], ["y"]), (True, [], [])):
+        owner = f"Expr(real={real}, sym_tensors={s}, antisym_tensors={a})"
 
-def _classes_of(sx, kind):
-    return (kind,) + tuple(sorted(sx._bases(f"{SO}:{kind}")))
-
-
-def _tensor(sx, kind, name, bks=0, label="base"):
-    """Abstract sympy tensor object of class ``kind``."""
-    o = Obj(None, label)
-    mod = sx.model.module(SO)
-    o.attrs.update(name=name, symbol=sym("SYMBOL"), _classes=_classes_of(sx, kind) if kind in mod.classes else (kind,))
-    if "AntiSymmetricTensor" in o.attrs["_classes"]:
-        o.attrs.update(upper=sym("UPPER"), lower=sym("LOWER"), bra_ket_sym=bks)
-        o.attrs["add_bra_ket_sym"] = lambda sx_, a, kw: T("add_bra_ket_sym", _freeze(o), tuple(a), tuple(sorted(kw.items())))
-    elif kind == "NonSymmetricTensor":
-        o.attrs.update(indices=sym("INDICES"))
-    if kind in mod.classes:
-        o.attrs["__class__"] = lambda sx_, a, kw: sx_.call_value(ClassRef(mod, kind), list(a), dict(kw), None)
-    return o
-
-
-def _wrap_pow(base, expo):
-    if expo == 1 and not isinstance(expo, T):
-        return base
-    p = Obj(None, "pow")
-    p.attrs.update(args=(base, expo), _classes=("Pow",), is_number=False)
-    return p
-
-
-def _container_obj(owner, content):
-    return Obj(f"{EC}:Obj", "self", _expr=owner, _term=Obj(None, "term"), _pos=0, _sympy=content, sympy=content)
-
-
-def _ctor(cls_name, name_, **kw):
-    """A constructor call as the evaluator records it (arguments bound by parameter name)."""
-    return T("call", cls_name, (), (("name", name_),) + tuple(kw.items()))
-
-
-def _added_sym(core, base):
-    """The symmetry b of a recorded ``base.add_bra_ket_sym(b)``."""
-    if not (isinstance(core, T) and core.op == "add_bra_ket_sym" and core.args[0] == base):
-        return None
-    pos, kw = core.args[1], dict(core.args[2])
-    if len(pos) == 1 and not kw:
-        return pos[0]
-    if not pos and set(kw) == {"bra_ket_sym"}:
-        return kw["bra_ket_sym"]
-    return None
-
-
-def _split_pow(v):
-    v = _freeze(v) if not isinstance(v, Obj) else v
-    if isinstance(v, T) and v.op == "pow":
-        return v.args[0], v.args[1]
-    return v, 1
+        def call(content):
+            e = cx.construct("Expr", content, real=real, sym_tensors=list(s), antisym_tensors=list(a))
+            st = sc.r_init(content, real, s, a)
+            out = []
+            terms = list(cx.get(e, "terms"))
+            tot = t_add(*[_freeze(cx.get(t, "sympy")) for t in terms])
+            out.append(("terms enumerate all summands", "R06e", [] if cx.value(tot) == cx.value(st["content"]) else
+                        [("leaves", f"sum of the terms is {cx.value(tot)[:500]}, the content is {cx.value(st['content'])[:500]}")]))
+            conts = []
+            for k, t in enumerate(terms):
+                objs = list(cx.get(t, "objects"))
+                prod = t_mul(*[_freeze(cx.get(ob, "sympy")) for ob in objs])
+                tv = cx.get(t, "sympy")
+                out.append((f"objects of term {k} enumerate all factors", "R06e", [] if cx.value(prod) == cx.value(tv) else
+                            [("leaves", f"product of the objects is {cx.value(prod)[:500]}, the term is {cx.value(tv)[:500]}")]))
+                conts.append((f"term {k}", lambda t=t: t))
+                for q, ob in enumerate(objs):
+                    conts.append((f"object {q} of term {k}", lambda ob=ob: ob))
+            for cname, getc in conts:
+                for meth, args, ref, real_after in methods:
+                    for rs in (True, False):
+                        c = getc()
+                        held = cx.get(c, "sympy")
+                        want = dict(st, content=ref(held))
+                        if real_after:
+                            want["real"] = True
+                            if not rs:      # a real expression declares fock and eri symmetric
+                                want["sym"] = want["sym"] | sc.fv
+                                want["content"] = sc.ref_apply(want["content"], want["sym"], want["anti"])
+                        try:
+                            r = cx.call(c, meth, *args, return_sympy=rs)
+                        except Raised as ex:
+                            out.append((f"{cname}: {meth}(return_sympy={rs})", "R06e", [("leaves", f"raises {ex.name}")]))
+                            continue
+                        if rs:
+                            g, w = cx.value(r), cx.value(want["content"])
+                            d = [] if g == w else [("structure" if sc.leaf_multiset(r) == sc.leaf_multiset(want["content"]) else
+                                                    "leaves", f"gives {g[:500]}; expected {w[:500]}")]
+                        elif isinstance(r, Obj) and r.cls == f"{EC}:Expr":
+                            d = sc.diff(sc.observe(r), want)
+                        else:
+                            d = [("leaves", f"does not return an Expr: {cx.show(r)[:200]}")]
+                        out.append((f"{cname} ({cx.show(held)[:80]}): {meth}(return_sympy={rs})", "R06e", d))
+            return out
+        o = _one(ctx, sc, f"lower levels of {owner}", sc.rich, call)
+        if o.kind != "return":
+            ctx.bad("R06e", node, f"lower container levels of {owner}: raises {o.exc}", key=f"lower {owner}")
+            continue
+        for label, rule, d in o.value:
+            # wrappers: a wrong flag / declaration on the wrapper is part of the homomorphism clause here
+            d = [("leaves" if k == "state" else k, t) for k, t in d]
+            _report(ctx, sc, rule, node, f"{owner}: {label}", f"lower {owner} {label}", d)
 
 
 KINDS = ("AntiSymmetricTensor", "Amplitude", "SymmetricTensor", "NonSymmetricTensor", "KroneckerDelta")
 
 
-def _independent(sx, fn, state, cur, make):
-    """Premise of the recorded calls (skeleton.DEPENDS), verified by differential evaluation: the raw value of the Obj
-    method is the same under assumptions that differ only in what it is declared not to depend on."""
-    method = fn.name
-    deps = sk.DEPENDS.get(method, sk.ALL_DEPS)
-    alt = ExprState(state.expr, state.real if "real" in deps else not state.real,
-                    state.sym if "sym_tensors" in deps else set(state.sym) ^ {"x", "q"},
-                    state.anti if "antisym_tensors" in deps else set(state.anti) ^ {"y", "r"}, ["k"])
-    res = []
-    for st in (state, alt):
-        cur["state"] = st
-        res.append([(o.kind, repr(_freeze(o.value)) if o.kind == "return" else o.exc) for o, _ in sk.run_method(sx, fn, make)])
-    cur["state"] = state
-    if res[0] != res[1]:
-        raise AnalysisError(f"R06e: the raw value of Obj.{method} depends on assumptions other than {list(deps)}: "
-                            f"{res[0]} vs {res[1]} (premise of the evaluated skeleton)")
-
-
-def obj_level(ctx):
-    sx = sk.container_sx(ctx, "Obj level")
-    tn = sk.tensor_names_obj(ctx.model)
-    t = tn.attrs["gs_amplitude"]
-    expos = (sym("n"), 1)
-    # ---- _apply_tensor_braket_sym: decision table
-    fn = ctx.model.fn(f"{EC}:Obj._apply_tensor_braket_sym")
-    for kind, name, bks, expo, rs in itertools.product(KINDS, ("x", "y", "z"), (0, 1, -1), expos, (True, False)):
-        state = ExprState(sym("E"), False, ("x",), ("y",), None)
-        cur = {"state": state}
-        is_ast = kind in TENSOR_CLASSES
-        if not is_ast and bks != 0:
-            continue
-        if (name == "x" and bks == -1) or (name == "y" and bks == 1):
-            continue        # conflicting declaration: add_bra_ket_sym refuses it (R06f add_bra_ket_sym table)
-        made = {}
-
-        def make():
-            base = _tensor(sx, kind, name, bks)
-            content = _wrap_pow(base, expo)
-            made["base"], made["content"] = base, content
-            return _container_obj(cur["state"].obj("expr"), content), dict(return_sympy=rs)
-        if rs:
-            _independent(sx, fn, state, cur, make)
-        for o, me in sk.run_method(sx, fn, make):
-            label = f"{kind} {name!r} (declared: sym x, antisym y) bra_ket_sym={bks} exponent={show(expo)} {'raw' if rs else 'wrapped'}"
-            if o.kind != "return":
-                ctx.bad("R06f", fn, f"Obj._apply_tensor_braket_sym on {label}: raises {o.exc}", key=f"obj sym {label}")
-                continue
-            want_sym = None
-            if is_ast and name == "x" and bks != 1:
-                want_sym = 1
-            elif is_ast and name == "y" and bks != -1:
-                want_sym = -1
-            v = o.value
-            if not rs:
-                if not (isinstance(v, T) and v.op == "call" and v.args[0] == "Expr"):
-                    ctx.bad("R06e", fn, f"{label}: result not wrapped in Expr: {show(_freeze(v))[:200]}", key=f"obj sym wrap {label}")
-                    continue
-                okw, why = sk.wrapper_ok(v, args_of(v).get("e"), state)
-                ctx.check("R06e", fn, okw, f"{label}: wrapper carries the assumptions", f"{label}: {why}", key=f"obj sym wrap {label}")
-                v = args_of(v).get("e")
-            core, e = _split_pow(v)
-            untouched = _freeze(v) == _freeze(made["content"])
-            if want_sym is None:
-                ctx.check("R06f", fn, untouched, f"{label}: left untouched",
-                          f"{label}: object is changed to {show(_freeze(v))[:200]} although no (new) symmetry is declared for it",
-                          key=f"obj sym {label}")
-                continue
-            got_sym = _added_sym(core, _freeze(made["base"]))
-            ctx.check("R06f", fn, got_sym == want_sym, f"{label}: symmetry {want_sym:+d} added to the base",
-                      f"{label}: expected the base with bra-ket symmetry {want_sym:+d} added, got "
-                      f"{'the untouched object' if untouched else show(_freeze(v))[:200]}", key=f"obj sym {label}")
-            if got_sym == want_sym:
-                ctx.check("R06e", fn, e == expo, f"{label}: rebuilt value raised to the object's exponent",
-                          f"{label}: rebuilt value is raised to {show(e)}, the object's exponent is {show(expo)} (exponent lost)",
-                          key=f"obj sym exponent {label}")
-    # ---- make_real: value table
-    fn = ctx.model.fn(f"{EC}:Obj.make_real")
-    names = [f"{t}1cc", f"{t}2cc", f"{t}cc", f"{t}3", t, f"{t}1c", "f", "V", "X", f"{t}x", "cc"]
-    for kind, name, bks, expo, rs in itertools.product(("Amplitude", "AntiSymmetricTensor", "NonSymmetricTensor", "KroneckerDelta"),
-                                                       names, (0, 1), expos, (True, False)):
-        if kind != "Amplitude" and (bks or name != "f"):
-            continue        # names of t-amplitudes belong to Amplitude objects
-        state = ExprState(sym("E"), False, ("x",), (), None)
-        cur = {"state": state}
-        made = {}
-
-        def make():
-            base = _tensor(sx, kind, name, bks)
-            content = _wrap_pow(base, expo)
-            made["base"], made["content"] = base, content
-            return _container_obj(cur["state"].obj("expr"), content), dict(return_sympy=rs)
-        m = re.fullmatch(re.escape(t) + r"(\d*)(c+)", name)
-        new = (t + m.group(1)) if (m and kind != "KroneckerDelta") else None
-        if rs:
-            _independent(sx, fn, state, cur, make)
-        for o, me in sk.run_method(sx, fn, make):
-            label = f"{kind} {name!r} bra_ket_sym={bks} exponent={show(expo)} {'raw' if rs else 'wrapped'}"
-            if o.kind != "return":
-                ctx.bad("R06e", fn, f"Obj.make_real on {label}: raises {o.exc}", key=f"obj real {label}")
-                continue
-            v = o.value
-            if not rs:
-                if not (isinstance(v, T) and v.op == "call" and v.args[0] == "Expr"):
-                    ctx.bad("R06e", fn, f"{label}: result not wrapped in Expr: {show(_freeze(v))[:200]}", key=f"obj real wrap {label}")
-                    continue
-                okw, why = sk.wrapper_ok(v, args_of(v).get("e"), state, real=True)
-                ctx.check("R06e", fn, okw, f"{label}: wrapper carries the assumptions and real=True", f"{label}: {why}",
-                          key=f"obj real wrap {label}")
-                v = args_of(v).get("e")
-            if new is None:
-                ctx.check("R06e", fn, _freeze(v) == _freeze(made["content"]), f"{label}: left untouched",
-                          f"{label}: object is changed to {show(_freeze(v))[:200]} although it is not a complex conjugate t-amplitude",
-                          key=f"obj real {label}")
-                continue
-            core, e = _split_pow(v)
-            want_core = _ctor("Amplitude", name_=new, upper=sym("UPPER"), lower=sym("LOWER"), bra_ket_sym=bks)
-            ctx.check("R06e", fn, core == want_core, f"{label}: renamed to {new!r}, same class, index groups and symmetry",
-                      f"{label}: expected {show(want_core)} (** exponent), got {show(_freeze(v))[:300]}", key=f"obj real {label}")
-            if core == want_core:
-                ctx.check("R06e", fn, e == expo, f"{label}: rebuilt value raised to the object's exponent",
-                          f"{label}: rebuilt value is raised to {show(e)}, the object's exponent is {show(expo)} (exponent lost)",
-                          key=f"obj real exponent {label}")
-    # ---- rename_tensor: value table
-    fn = ctx.model.fn(f"{EC}:Obj.rename_tensor")
-    for kind, name, bks, expo, rs in itertools.product(KINDS, ("a", "c"), (0, -1), expos, (True, False)):
+def decision_table(ctx):
+    """R06f: which object gets which symmetry (class x declared name x present symmetry x exponent), observed through
+    Expr(content, sym_tensors=['x'], antisym_tensors=['y']) on contents that consist of one object."""
+    sc = Scene(ctx)
+    cx = sc.cx
+    node = ctx.model.fn(f"{EC}:Expr.__init__")
+    for kind, name, bks, expo in itertools.product(KINDS, ("x", "y", "z"), (0, 1, -1), (1, 2)):
         if kind not in TENSOR_CLASSES and bks:
             continue
-        state = ExprState(sym("E"), True, ("V", "f"), ("y",), None)
-        cur = {"state": state}
-        made = {}
+        conflict = (name == "x" and bks == -1) or (name == "y" and bks == 1)
+        if conflict and expo != 1:
+            continue
 
-        def make():
-            base = _tensor(sx, kind, name, bks)
-            content = _wrap_pow(base, expo)
-            made["base"], made["content"] = base, content
-            return _container_obj(cur["state"].obj("expr"), content), dict(current="a", new="b", return_sympy=rs)
-        if rs:
-            _independent(sx, fn, state, cur, make)
-        for o, me in sk.run_method(sx, fn, make):
-            label = f"{kind} {name!r} -> rename('a','b') bra_ket_sym={bks} exponent={show(expo)} {'raw' if rs else 'wrapped'}"
-            if o.kind != "return":
-                ctx.bad("R06e", fn, f"Obj.rename_tensor on {label}: raises {o.exc}", key=f"obj rename {label}")
-                continue
-            v = o.value
-            if not rs:
-                if not (isinstance(v, T) and v.op == "call" and v.args[0] == "Expr"):
-                    ctx.bad("R06e", fn, f"{label}: result not wrapped in Expr: {show(_freeze(v))[:200]}", key=f"obj rename wrap {label}")
-                    continue
-                okw, why = sk.wrapper_ok(v, args_of(v).get("e"), state)
-                ctx.check("R06e", fn, okw, f"{label}: wrapper carries the assumptions", f"{label}: {why}", key=f"obj rename wrap {label}")
-                v = args_of(v).get("e")
-            if name != "a" or kind == "KroneckerDelta":
-                ctx.check("R06e", fn, _freeze(v) == _freeze(made["content"]), f"{label}: left untouched",
-                          f"{label}: object is changed to {show(_freeze(v))[:200]} although its name is not the one to rename",
-                          key=f"obj rename {label}")
-                continue
-            core, e = _split_pow(v)
-            if kind == "NonSymmetricTensor":
-                want_core = _ctor(kind, name_="b", indices=sym("INDICES"))
+        def build(diag=False):
+            i, j, a, b = sc.i, sc.j, sc.a, sc.b
+            if kind == "KroneckerDelta":
+                leaf = sc.delta(i, j)
+            elif kind == "NonSymmetricTensor":
+                leaf = sc.nonsym(name, (a, i))
             else:
-                want_core = _ctor(kind, name_="b", upper=sym("UPPER"), lower=sym("LOWER"), bra_ket_sym=bks)
-            ctx.check("R06e", fn, core == want_core, f"{label}: same class rebuilt with the new name, same indices and symmetry",
-                      f"{label}: expected {show(want_core)} (** exponent), got {show(_freeze(v))[:300]}", key=f"obj rename {label}")
-            if core == want_core:
-                ctx.check("R06e", fn, e == expo, f"{label}: rebuilt value raised to the object's exponent",
-                          f"{label}: rebuilt value is raised to {show(e)}, the object's exponent is {show(expo)} (exponent lost)",
-                          key=f"obj rename exponent {label}")
+                leaf = sc.tensor(kind, name, (b, a), (b, a) if diag else (j, i), bks)
+            return t_pow(leaf, expo)
+
+        def call(content):
+            got = sc.observe(cx.construct("Expr", content, sym_tensors=["x"], antisym_tensors=["y"]))
+            return sc.diff(got, sc.r_init(content, False, ["x"], ["y"]))
+        label = f"Expr({kind} {name!r} with bra_ket_sym={bks}{' squared' if expo == 2 else ''}, sym_tensors=['x'], antisym_tensors=['y'])"
+        o = _one(ctx, sc, label, build, call)
+        if conflict:
+            ctx.check("R06f", node, o.kind == "raise", f"{label}: the opposite symmetry is refused",
+                      f"{label}: a tensor that carries the opposite bra-ket symmetry is accepted: {o.value if o.kind == 'return' else ''}",
+                      key=f"table {label}")
+            continue
+        if o.kind != "return":
+            ctx.bad("R06f", node, f"{label}: raises {o.exc}", key=f"table {label}")
+            continue
+        _report(ctx, sc, "R06f", node, label, f"table {label}", o.value)
+        if kind in TENSOR_CLASSES and bks == 0:
+            # upper group == lower group: declared antisymmetric the tensor (and with it the content) vanishes
+            label = label.replace(f"{kind} ", f"diagonal {kind} ")
+            o = _one(ctx, sc, label, lambda: build(True), call)
+            if o.kind != "return":
+                ctx.bad("R06f", node, f"{label}: raises {o.exc}", key=f"table {label}")
+                continue
+            _report(ctx, sc, "R06f", node, label, f"table {label}", o.value)
 
 
 def add_bra_ket_sym(ctx):
-    """R06f: AntiSymmetricTensor.add_bra_ket_sym(b): same symmetry -> the tensor itself; none set -> the same class
-    rebuilt from name and index groups with b; a different one already set -> refused."""
-    sx = _tensor_sx(ctx, "add_bra_ket_sym")
+    """R06f: AntiSymmetricTensor.add_bra_ket_sym(b) (public): same symmetry -> the tensor itself; none set -> the same
+    class rebuilt from name and index groups with b; a different one already set -> refused."""
+    sc = Scene(ctx)
+    cx = sc.cx
     for cname in TENSOR_CLASSES:
-        fn = _resolve(sx, cname, "add_bra_ket_sym")
+        node = _resolve(cx.sx, cname, "add_bra_ket_sym")
         for cur, req in itertools.product((0, 1, -1), repeat=2):
-            def make():
-                me = _tensor(sx, cname, "X", cur, label="self")
-                me.__dict__["cls"] = f"{SO}:{cname}"
-                return dict(self=me, bra_ket_sym=req)
-            outs = sx.run(fn, make)
+            def call(_):
+                t = sc.tensor(cname, "X", (sc.b, sc.a), (sc.j, sc.i), cur)
+                leaf = [x for x in ([t] + list(t.args if isinstance(t, T) and t.op == "mul" else [])) if cx.resolve(x) is not x]
+                r = cx.resolve(leaf[0])
+                got = cx.call(r, "add_bra_ket_sym", req)
+                name, (up, lo, b) = sc.parts(r)
+                want = r if cur == req else cx.construct(cname, name, up, lo, req)
+                return cx.value(got), cx.value(want)
+            o = _one(ctx, sc, "add_bra_ket_sym", lambda: None, call)
             label = f"{cname} with bra_ket_sym={cur}: add_bra_ket_sym({req})"
-            if len(outs) != 1:
-                ctx.bad("R06f", fn, f"{label}: {outs}", key=f"abks {cname} {cur} {req}")
-                continue
-            o = outs[0]
-            if cur == req:
-                ok, want = o.kind == "return" and isinstance(o.value, Obj) and o.value.name == "self", "the tensor itself"
-            elif cur == 0:
-                w = _ctor(cname, name_=sym("SYMBOL"), upper=sym("UPPER"), lower=sym("LOWER"), bra_ket_sym=req)
-                ok, want = o.kind == "return" and _freeze(o.value) == w, f"rebuilt as {show(w)}"
+            if cur == req or cur == 0:
+                ok = o.kind == "return" and o.value[0] == o.value[1]
+                want = "the tensor itself" if cur == req else "the same tensor rebuilt with the symmetry"
             else:
                 ok, want = o.kind == "raise", "refused (the original index order is lost)"
-            ctx.check("R06f", fn, ok, f"{label}: {want}",
-                      f"{label}: gives {o.kind} {show(_freeze(o.value)) if o.kind == 'return' else o.exc}, expected {want}",
+            ctx.check("R06f", node, ok, f"{label}: {want}",
+                      f"{label}: gives {o.value if o.kind == 'return' else 'raise ' + str(o.exc)}, expected {want}",
                       key=f"abks {cname} {cur} {req}")
 
 
-def r06e(ctx):
-    for m, args, real_after in (("make_real", {}, True), ("_apply_tensor_braket_sym", {}, None),
-                                ("rename_tensor", dict(current="a", new="b"), None)):
-        sk.sx_term_level(ctx, "R06e", m, args, real_after)
-        sk.sx_polynom_level(ctx, "R06e", m, args, real_after)
-
-
 def _floors(ctx):
-    for rule, minimum in (("R06a", 4), ("R06c", 40), ("R06d", 100), ("R06e", 300), ("R06f", 400)):
+    if ctx.violations:
+        return          # scenarios that end in a violation are not evaluated further: the counts say nothing then
+    for rule, minimum in (("R06a", 4), ("R06c", 40), ("R06d", 100), ("R06e", 100), ("R06f", 100)):
         if ctx.want(rule) and (ctx.only_rule is None or ctx.only_rule == rule):
             ctx.floor(rule, "evaluated scenarios", ctx.per_rule.get(rule, {}).get("obligations", 0), minimum)
 
@@ -1076,10 +1161,10 @@ def _run(ctx):
         r06c(ctx)
     if ctx.want("R06d"):
         r06d(ctx)
-    if ctx.want("R06e"):
-        r06e(ctx)
     if ctx.want("R06e") or ctx.want("R06f"):
         expr_machine(ctx)
-        obj_level(ctx)
+        decision_table(ctx)
+    if ctx.want("R06e"):
+        lower_levels(ctx)
     if ctx.want("R06f"):
         add_bra_ket_sym(ctx)
